@@ -323,7 +323,11 @@ type c18aSession struct {
 }
 
 // start layers KCP and smux on the packet conn, statement by statement as client/lib newSession.
-func (s *c18aSession) start() error {
+func (s *c18aSession) start() error { return s.startWith(false) }
+
+// startWith(true): the smux keep-alive runs every 40 ms, so NOP frames establish the KCP session at the server
+// before the client opens its first stream (a client that connects and lets its first stream wait).
+func (s *c18aSession) startWith(early bool) error {
 	conn, err := kcp.NewConn2(c18aAddr{}, nil, 0, 0, s.pc)
 	if err != nil {
 		return err
@@ -335,6 +339,9 @@ func (s *c18aSession) start() error {
 	smuxConfig.Version = 2
 	smuxConfig.KeepAliveTimeout = 10 * time.Minute
 	smuxConfig.MaxStreamBuffer = StreamSize
+	if early {
+		smuxConfig.KeepAliveInterval = 40 * time.Millisecond
+	}
 	sess, err := smux.Client(conn, smuxConfig)
 	if err != nil {
 		conn.Close()
@@ -388,6 +395,8 @@ func (st c18aStep) String() string {
 	switch st.kind {
 	case "start", "stream":
 		return fmt.Sprintf("%s(s%d)", st.kind, st.sess)
+	case "early":
+		return fmt.Sprintf("open-and-establish-without-a-stream(s%d,%v)", st.sess, st.ip)
 	case "redial":
 		return fmt.Sprintf("redial(s%d,%v,dropold=%v)+stream", st.sess, st.ip, st.drop)
 	}
@@ -476,6 +485,10 @@ func c18aGenScenario(rng *rand.Rand, capacity int, used map[string]bool) (nSess,
 				sc = append(sc, c18aStep{kind: "noise", sess: rng.Intn(nNoise), ip: c18aAnyIP(rng, used)})
 			}
 			sc = append(sc, c18aStep{kind: "start", sess: i})
+		} else if rng.Intn(4) == 0 {
+			// the session is established by keep-alive frames; its first stream comes later, after other carriers
+			sc = append(sc, c18aStep{kind: "early", sess: i, ip: c18aAnyIP(rng, used)})
+			sc = append(sc, c18aStep{kind: "redial", sess: i, ip: c18aAnyIP(rng, used), drop: rng.Intn(3) == 0})
 		} else {
 			sc = append(sc, c18aStep{kind: "open", sess: i, ip: c18aAnyIP(rng, used)})
 		}
@@ -751,6 +764,34 @@ func c18aScenario(t *testing.T, r *vh.Run, rng *rand.Rand, scen int, capacity in
 				break
 			}
 			expect(s, st.String())
+		case "early":
+			s := sessions[st.sess]
+			s.pc = c18aNewPC()
+			if err := s.pc.attach(serverAddr, st.ip, s.id); err != nil {
+				abandoned = st.String() + ": " + err.Error()
+				break
+			}
+			carrier(st.sess, st.ip)
+			if err := s.startWith(true); err != nil {
+				abandoned = st.String() + ": " + err.Error()
+				break
+			}
+			// barrier: the server's KCP has acknowledged a keep-alive frame (its session exists), then time for
+			// acceptSessions to hand it to acceptStreams
+			// (the first acknowledgement sets the smoothed RTT - possibly to 0 ms on loopback - and recomputes the RTO)
+			dl := time.Now().Add(c18aStepTimeout)
+			acked := func() bool { return s.kconn.GetSRTT() > 0 || s.kconn.GetRTO() != 200 }
+			for !acked() && time.Now().Before(dl) {
+				time.Sleep(5 * time.Millisecond)
+			}
+			if !acked() {
+				abandoned = st.String() + ": the keep-alive frames were not acknowledged in time"
+				break
+			}
+			time.Sleep(400 * time.Millisecond)
+			s.opened = true
+			s.expected = ref.get(s.idNum)
+			events = append(events, fmt.Sprintf("e%d=%d", s.idx, s.idNum))
 		case "stream", "redial":
 			s := sessions[st.sess]
 			if st.kind == "redial" {
